@@ -50,6 +50,10 @@ pub enum Stage {
     ReplyInFlight,
     /// the caller's connection is cut while the method waits at its first suspension point
     ConnectionCut,
+    /// dropped while a reply larger than the caller's flow-control window is being transferred
+    BigReplyInFlight,
+    /// the caller's connection is cut while such a reply is being transferred
+    BigReplyCut,
 }
 
 #[derive(Debug, Clone, Copy, PartialEq, Eq)]
@@ -168,20 +172,32 @@ impl Scenario for WedgeScenario {
                             gate.open(2);
                             env.dir(0, 0).hold(true);
                         }
+                        Stage::BigReplyInFlight | Stage::BigReplyCut => env.dir(0, 0).hold(true),
                         _ => {}
                     }
+                    let big = matches!(stage, Stage::BigReplyInFlight | Stage::BigReplyCut);
                     let p = if stage == Stage::BeforeQueue { 0 } else { 1000 };
                     let o3 = o2.clone();
                     let a = env.spawn("caller-A", 2, async move {
                         // with p = 1000 the future is dropped at quiescence, i.e. at the chosen stage
-                        let r = if no_cancel { cancel_at(a_client.slow_nc(1), p).await } else { cancel_at(a_client.slow(1), p).await };
+                        let r = if big {
+                            // 250 bytes: below the reply size limit, about twice the caller's receive buffer
+                            match cancel_at(a_client.big(250), p).await {
+                                Cancelled::Done(r) => Cancelled::Done(r.map(|v| v.len() as u32)),
+                                Cancelled::Cancelled(n) => Cancelled::Cancelled(n),
+                            }
+                        } else if no_cancel {
+                            cancel_at(a_client.slow_nc(1), p).await
+                        } else {
+                            cancel_at(a_client.slow(1), p).await
+                        };
                         o3.lock().unwrap().a_result = Some(match r {
                             Cancelled::Done(r) => format!("done:{:?}", r.map_err(|e| format!("{e:?}"))),
                             Cancelled::Cancelled(n) => format!("dropped@{n}"),
                         });
                         a_client
                     });
-                    if stage == Stage::ConnectionCut {
+                    if matches!(stage, Stage::ConnectionCut | Stage::BigReplyCut) {
                         env.quiesce().await;
                         env.dir(0, 0).cut();
                         env.dir(0, 1).cut();
@@ -326,8 +342,11 @@ pub fn scenarios(tier: Tier) -> Vec<Arc<dyn Scenario>> {
     let flavours = [Flavour::MValue, Flavour::RefMut, Flavour::SharedMut(false), Flavour::SharedMut(true)];
     let _ = tier;
     for f in flavours {
-        for stage in [Stage::BeforeQueue, Stage::QueuedBehind, Stage::AtGate1, Stage::AtGate2, Stage::ReplyInFlight, Stage::ConnectionCut] {
+        for stage in [Stage::BeforeQueue, Stage::QueuedBehind, Stage::AtGate1, Stage::AtGate2, Stage::ReplyInFlight, Stage::ConnectionCut, Stage::BigReplyInFlight, Stage::BigReplyCut] {
             for no_cancel in [false, true] {
+                if no_cancel && matches!(stage, Stage::BigReplyInFlight | Stage::BigReplyCut) {
+                    continue;
+                }
                 out.push(Arc::new(WedgeScenario { flavour: f, case: Case::Abandon { stage, no_cancel } }));
             }
         }
